@@ -130,7 +130,7 @@ func mapsEquivalent(a, b map[string][]byte, depth int) bool {
 		if bytes.Equal(va, vb) {
 			continue
 		}
-		if depth > 16 || !sameValue(va, vb) {
+		if depth > 64 || !sameValue(va, vb) {
 			return false
 		}
 	}
@@ -138,7 +138,7 @@ func mapsEquivalent(a, b map[string][]byte, depth int) bool {
 }
 
 func canon(b []byte, depth int) ([]byte, bool) {
-	if depth > 16 || len(b) < 4 {
+	if depth > 64 || len(b) < 4 {
 		return nil, false
 	}
 	r := &reader{b: b}
